@@ -70,6 +70,10 @@ CHECKS = {
          "162 epochs 1000..3000 (all seasons) x 11 target frames for the frame clauses, every 25th year -2000..4000 x 4 seasons for reflection/obliquity/nutation, every 73 days 1800..2200 for the coarse formulas, 12 instants x 7 argument forms. Three genuine, test-pinned defects of the frame functions are known findings accepted only at the recorded epochs with the recorded deviation (findings_data/), so any other change of those functions is still reported.",
          "Real-valued quantifier: epoch lattice; precession (C06) and VSOP87 (C07) are the reference.",
          "DESIGN.md 3/C08"),
+ "C09": (EX, "exhaustive epoch lattice x 7 planets and Pluto with the direction rebuilt from the library's own heliocentric vectors (light-time iterated); full Cartesian orbit lattice q x e x orientation x time for minor bodies against an independent two-body solver",
+         "7 planets x 183 epochs (thorough 14 400) for direction, elongation, its bounds and the caller's Epoch; Pluto every 30 days 1885-2099 plus the range ends; minor bodies: 5 q x 11 e (0..1.0 incl. both sides of 0.98) x 4 orientations x 13 times = 2 860 cases (1e-4 deg) plus continuity across the regime switches. The test-pinned elongation defect and the near-parabolic non-convergence are known findings accepted only at the recorded inputs (with the recorded deviation).",
+         "Real-valued quantifier: finite lattices; the planets' oracle uses VSOP87 positions (C07), the Sun (C08) and ecliptical2equatorial (C05) of the library itself.",
+         "DESIGN.md 3/C09"),
 }
 
 NOT_YET = {}
